@@ -231,6 +231,8 @@ class NexusFitter(object):
         for _par_name, _new_value in parameter_value_dict.items():
             self._nx.get(_par_name).value = _new_value
             self._minimizer.set(_par_name, _new_value)
+            if _par_name in self._fixed_pars:
+                self._fixed_pars[_par_name] = _new_value  # a fixed parameter stays fixed, at its new value
 
         # set flags
         self.__state_is_from_minimizer = False
@@ -248,6 +250,8 @@ class NexusFitter(object):
         for _par_name, _par, _new_value in zip(self._fit_par_names, self._fit_pars, fit_par_value_list):
             _par.value = _new_value
             self._minimizer.set(_par_name, _new_value)
+            if _par_name in self._fixed_pars:
+                self._fixed_pars[_par_name] = _new_value  # a fixed parameter stays fixed, at its new value
 
         # set flags
         self.__state_is_from_minimizer = False
